@@ -129,7 +129,58 @@ def next_rule(P, R, fn):
             R.violation("C17.next", "cmdnext:continue", "the continuing branch of NEXT does not jump back to the loop's home line", **where)
 
 
+def guisibling_rule(P, R):
+    """DATA / READ / RESTORE: PBasic keeps a two-field data cursor (dataline, datatok).  cmdread and cmdrestore implement the
+    cursor twice - one branch for the interactive editor (phreeqci_gui) and one for batch use - and the two must be the same
+    algorithm: the branches are compared as normal forms after dropping the editor-only statements (assert placeholders,
+    nIDErrPrompt bookkeeping) and unwrapping `if (parse_whole_program)`.  A change made to one branch only (e.g. testing the
+    other cursor field) makes READ deliver different values in the library than in the editor - and wrong ones."""
+    from .. import shape as SH
+    R.rule("C17.datacursor", "the editor and batch branches of the DATA cursor commands (cmdread, cmdrestore) are the same algorithm", minimum=2)
+
+    def gui_only(s_):
+        if not T.is_node(s_):
+            return True
+        if s_[0] in ("Lit", "Null") or (s_[0] == "Cast" and T.strip_casts(s_)[0] == "Lit"):
+            return True          # expanded _ASSERTE placeholder
+        if s_[0] == "Call" and T.callee_name(s_) in ("_ASSERTE", "assert"):
+            return True
+        if s_[0] == "Bin" and s_[2] == "=" and "nIDErrPrompt" in T.text(s_[3]):
+            return True
+        return False
+
+    def strip(n):
+        if not T.is_node(n):
+            return n
+        if n[0] == "Compound":
+            out = [strip(s_) for s_ in n[2] if not gui_only(s_)]
+            if len(out) == 1:
+                return out[0]
+            return ["Compound", n[1], out]
+        if n[0] == "If":
+            c = T.strip_casts(n[2])
+            if T.is_node(c) and c[0] == "Member" and c[2].split("::")[-1] == "parse_whole_program" and not T.is_node(n[4]):
+                return strip(n[3])
+        return [n[0], n[1]] + [(strip(c) if T.is_node(c) else ([strip(cc) for cc in c] if isinstance(c, list) else c)) for c in n[2:]]
+
+    for q in ("PBasic::cmdread", "PBasic::cmdrestore"):
+        f = P.one(q)
+        sites = [x for x in T.walk(f["body"]) if x[0] == "If" and T.is_node(T.strip_casts(x[2])) and T.strip_casts(x[2])[0] == "Member"
+                 and T.strip_casts(x[2])[2].split("::")[-1] == "phreeqci_gui" and T.is_node(x[4])]
+        if len(sites) != 1:
+            R.anchor_missing("C17.datacursor", "%s: expected one `if (phreeqci_gui) ... else ...`, found %d" % (q, len(sites)))
+            continue
+        x = sites[0]
+        a, b = SH.shape(strip(x[3])), SH.shape(strip(x[4]))
+        if a == b:
+            R.ok("C17.datacursor", q.split("::")[-1], "editor and batch branches have the same normal form")
+        else:
+            R.violation("C17.datacursor", q.split("::")[-1], "the batch branch differs from the editor branch at %s: READ/RESTORE follow a different cursor algorithm in the library"
+                        % (SH.first_difference(a, b),), file=f["file"], line=x[1], function=f["q"])
+
+
 def run(P, R, tier):
+    guisibling_rule(P, R)
     R.undecided += ["(e) arithmetic and string results for all programs", "(f) malformed programs produce a BASIC error, never a wrong value or a hang"]
     ens = [e for e in P.enums.values() if e["q"].endswith("BASIC_TOKEN")]
     if len(ens) != 1:
